@@ -799,6 +799,7 @@ func schemaSig(s kit.Schema) string {
 func checkSchemaRoundTrip(t *rapid.T) {
 	p := kit.ProfileCodec
 	p.FancyNames = rapid.Bool().Draw(t, "fancy")
+	p.WideBounds, p.MapEnums = true, true
 	s := kit.GenSchema(t, p)
 	for i := range s.Tables {
 		for j := range s.Tables[i].Cols {
